@@ -433,6 +433,16 @@ def replay(rp):
         if rp.get("kind") == "junk":
             rc, out, err = run_junk(root, tuple(rp["job"]))
             return junk_oracle(rc, out, err) is None
+        if rp.get("kind") == "inplace":
+            import c12
+            shm = tempfile.mkdtemp(prefix="verif_c19_", dir=c12.SHM) if c12.have_cross() else root
+            try:
+                case = dict(rp["case"], content=vlib.b64d(rp["case"]["content_b64"]))
+                rc0, want, r = run_inplace(root, shm, (case, rp["cross"], rp["fault"]))
+                return inplace_oracle(case, rc0, want, r) is None
+            finally:
+                if shm != root:
+                    shutil.rmtree(shm, ignore_errors=True)
         if rp.get("kind") == "sink":
             case = [c for c in sink_cases() if c[0] == rp["case"]][0]
             return sink_oracle(run_sink_case(root, case, None), run_sink_case(root, case, rp["sink"])) is None
@@ -525,6 +535,52 @@ def junk_oracle(rc, out, err):
     if rc == 0:
         return None if b"zqT" in out else "exit 0 and nothing on stderr although the input has junk after a complete value; everything after the junk is silently dropped"
     return None if err.strip() else "exit %d without a message on stderr" % rc
+
+
+# ---------------------------------------------------------------------------
+# (F) -i under every fault point of the in-place protocol, for eval and eval-all: the exit status tells whether
+#     the file got the new content (uses the verif hook points and the sandbox of the C12 check)
+def inplace_jobs(cross_ok):
+    import c12
+    cases = [dict(name="set", expr=".a = 5", content=b"a: 1\nb: 2\n", mode=0o640),
+             dict(name="multi-doc", expr='.x = "y"', content=b"a: 1\n---\nb: 2\n", mode=0o600),
+             dict(name="e-match", expr=".a", flags=["-e"], content=b"a: 1\n", mode=0o644),
+             dict(name="e-no-match", expr=".zz", flags=["-e"], content=b"a: 1\n", mode=0o644),
+             dict(name="eval-error", expr='.a = error("x")', content=b"a: 1\n", mode=0o644)]
+    jobs = []
+    for case in cases:
+        for cmd in ("eval", "ea"):
+            c = dict(case, cmd=cmd)
+            for cross in ([False, True] if cross_ok else [False]):
+                jobs.append((c, cross, None))
+                for pt in c12.HOOKS:
+                    for act in ("fail", "kill"):
+                        jobs.append((c, cross, "%s:%s:1" % (pt, act)))
+    return jobs
+
+
+def run_inplace(root, shmroot, job):
+    import c12
+    case, cross, fault = job
+    sb = c12.Sandbox(root, shmroot, case, False)
+    try:
+        rc0, want, _ = vlib.run_yq(c12.argv(case, False, sb.target, sb.more), env=sb.env(), cwd=sb.dir)
+    finally:
+        sb.close()
+    r = c12.run_fault(root, shmroot, case, cross, fault)
+    return rc0, want, r
+
+
+def inplace_oracle(case, rc0, want, r):
+    """exit 0 <=> the file holds the new content (the stdout of the same command without -i)"""
+    if r["rc"] == 9:
+        return None                                  # killed: no exit status to judge (C12 judges the file)
+    got_new = rc0 == 0 and r["data"] == want
+    if r["rc"] == 0 and not got_new:
+        return "exit 0 with empty stderr although the file did not get the new content" if not r["stderr"].strip() else "exit 0 although the file did not get the new content"
+    if r["rc"] != 0 and not r["stderr"].strip():
+        return "exit %d without a message on stderr" % r["rc"]
+    return None
 
 
 def sink_cases():
@@ -732,6 +788,26 @@ def run(chk):
                                                                         d["prefixes"][pi] + d["junk"][ji] + d["suffix"]))
         chk.extra["junk_tail_runs"] = dict(jdist, total=len(jjobs))
 
+        # ---------------- (F) -i: the exit status under every fault point, eval and eval-all ----------------
+        import c12
+        cross_ok = c12.have_cross()
+        shmroot = tempfile.mkdtemp(prefix="verif_c19_", dir=c12.SHM) if cross_ok else root
+        try:
+            ijobs2 = inplace_jobs(cross_ok)
+            iobs2 = list(pool.map(lambda j: run_inplace(root, shmroot, j), ijobs2))
+        finally:
+            if shmroot != root:
+                shutil.rmtree(shmroot, ignore_errors=True)
+        for (case, cross, fault), (rc0, want, r) in zip(ijobs2, iobs2):
+            chk.count(("inplace", case["name"], case["cmd"], cross, fault), nontrivial=fault is not None)
+            why = inplace_oracle(case, rc0, want, r)
+            # an error injected after the commit (no real operation there) exits 1 with the new content: not a lie about a failure
+            if why:
+                report({"kind": "inplace", "case": dict({k: v for k, v in case.items() if k != "content"}, content_b64=vlib.b64e(case["content"])),
+                        "cross": cross, "fault": fault, "rc": r["rc"], "stderr": r["stderr"]}, None,
+                       "%s :: yq %s -i %s <file> with YQ_VERIF_FAULT=%s%s" % (why, case["cmd"], case["expr"], fault, " (temp dir on another device)" if cross else ""))
+        chk.extra["inplace_fault_runs"] = len(ijobs2)
+
         # ---------------- -e spelling (direct) ----------------
         for doc, want in (("a: false\n", 1), ("a: False\n", 1), ("a: FALSE\n", 1), ("a: null\n", 1), ("a: ~\n", 1), ("a: 0\n", 0), ("a: \"false\"\n", 0), ("b: 1\n", 1)):
             d = sandbox(root)
@@ -825,7 +901,8 @@ def run(chk):
              "three input files (also the same file twice, both orders) in eval and eval-all: the output must be the concatenation of the single-file runs, "
              "and -e must see a match that lives in the second file. (E) inputs (json, yaml, xml, toml, csv, lua, props) with junk after a complete value "
              "(stray closing brackets, stray tokens, NUL, unterminated quotes) followed by more content, alone / first / second file, eval and eval-all: "
-             "non-zero exit with a message, or the content after the junk is on stdout. Non-trivial: container kinds / multi-file or multi-document runs."
+             "non-zero exit with a message, or the content after the junk is on stdout. (F) yq -i and yq ea -i under every verif fault point x {fail, kill} x "
+             "{same, other device}: exit 0 <=> the file holds the new content, non-zero exit => message on stderr. Non-trivial: container kinds / multi-file or multi-document runs."
              % (len(FILENAMES), len(KINDS), len(FORMATS)),
         trusted=vlib.COMMON_TRUSTED + [
             "Spec/CliSpec.v (hand-written: expected results of a complete run, -e rule)",
